@@ -39,7 +39,8 @@ ASSUMPTIONS = ['KLL merge, frequent-items resize/purge/iteration: the theorems a
                'instrumentation on the generated scripts (testing), not proved']
 
 FLAG_NAMES = {1: 'double_destroy', 2: 'construct_over_live', 4: 'use_of_destroyed', 8: 'read_of_moved_from', 16: 'dealloc_size_mismatch',
-              32: 'dealloc_unknown_block', 64: 'dealloc_other_arena', 128: 'default_allocator_used', 256: 'dealloc_with_live_items'}
+              32: 'dealloc_unknown_block', 64: 'dealloc_other_arena', 128: 'default_allocator_used', 256: 'dealloc_with_live_items',
+              1024: 'caller_memory_passed_to_allocator'}
 
 def flag_sig(v):
     names = [n for b, n in sorted(FLAG_NAMES.items()) if v & b]
@@ -186,7 +187,8 @@ def oracle_ledger(case, irecs, mrecs):
 # The oracle gives every register a "value token": a copy/move/assignment transfers the token, any operation on a
 # register gives it a fresh one; all digests (hash of the serialized image) taken under one token must be equal.
 # ---------------------------------------------------------------------------------------------------------------------
-KIND_NAMES = {0: 'kll', 1: 'tuple', 2: 'fi', 3: 'req', 4: 'var_opt', 5: 'quantiles', 6: 'ebpps', 7: 'hll', 8: 'cpc', 9: 'theta'}
+KIND_NAMES = {0: 'kll', 1: 'tuple', 2: 'fi', 3: 'req', 4: 'var_opt', 5: 'quantiles', 6: 'ebpps', 7: 'hll', 8: 'cpc', 9: 'theta',
+              10: 'bloom', 11: 'var_opt_union', 12: 'tdigest', 13: 'count_min', 14: 'density'}
 VS_PARAMS = {
     0: lambda rng: [rng.choice([8, 9, 20, 200]), 0],
     1: lambda rng: [rng.choice([5, 6]), rng.randrange(4)],
@@ -336,6 +338,94 @@ def gen_vsem(rng, tier):
         ops = [[1, 0, 7, lg, rng.randrange(3)], [1, 1, 7, rng.choice([4, 8, 12]), 0]] + [[2, rng.randrange(2), rng.randrange(10000), 1, 0] for _ in range(n)] + \
               [[14, 0], [14, 1], rng.choice([[4, 2, 0, 1, 1], [6, 1, 0, 1, 1]]), [14, 0], [14, 1], [99]]
         cases.append(dict(id='vshllmoved%d' % j, ops=ops, tags=['hll', 'assign-to-moved-from'], kind=7))
+    cases += gen_bloom_matrix(rng) + gen_growth(rng, tier)
+    return cases
+
+
+# ---- systematic cases: memory modes of the Bloom filter, growth through every reallocation ------------------------------
+BLOOM_MODES = {0: 'owned', 1: 'initialize_by_size', 2: 'writable_wrap', 3: 'wrap'}
+
+def gen_bloom_matrix(rng):
+    """every (target mode, source mode) pair x copy ctor, move ctor, copy assignment, move assignment, then destroy"""
+    cases = []
+    for tm in range(4):
+        for sm in range(4):
+            bits = rng.choice([64, 100, 512, 1000, 4096])
+            ops = [[1, 0, 10, bits, tm], [1, 1, 10, rng.choice([bits, 64, 2048]), sm]]
+            for r in (0, 1):
+                ops += [[2, r, rng.randrange(10000), 1, 0] for _ in range(rng.choice([0, 3, 20]))]
+            ops += [[14, 0], [14, 1],
+                    [5, 0, 1], [14, 0], [14, 1], [2, 0, 77, 1, 0], [14, 0], [14, 1],          # T = S, then mutate T
+                    [1, 2, 10, bits, tm], [2, 2, 5, 1, 0], [14, 2],
+                    [6, 2, 1, 1, 0], [14, 0], [14, 1], [14, 2],                                   # T' = move(S); S = T
+                    [3, 3, 2], [14, 3], [2, 3, 99, 1, 0], [14, 2], [14, 3],                       # copy ctor
+                    [4, 4, 3, 0, 0], [14, 4],                                                     # move ctor, source destroyed
+                    [5, 1, 1], [14, 1], [13, 0, 4, 2], [14, 0], [14, 4], [14, 2],                 # self-assignment, chain
+                    [9, 4], [15, 2], [16, 3, 0], [14, 3]]
+            if tm == 0: ops += [[7, 0, 2]]
+            ops += [[10, rng.choice([0, 1, 2])], [99]]
+            cases.append(dict(id='vsbloom_%s_%s' % (BLOOM_MODES[tm], BLOOM_MODES[sm]), ops=ops, kind=10,
+                              tags=['bloom', 'mode:%s<-%s' % (BLOOM_MODES[tm], BLOOM_MODES[sm])]))
+    return cases
+
+def stages(rng, total):
+    out = []; n = 1
+    while sum(out) < total:
+        out.append(n); n = max(n + 1, int(n * rng.choice([2, 3, 3.3])))
+    return out
+
+def gen_growth(rng, tier):
+    """each allocator-aware type driven through all its reallocations, with copies / moves / assignments taken at every stage"""
+    big = tier != 'quick'
+    plan = []
+    for k in (8, 16, 17, 32, 100):
+        plan.append((4, [k, rng.randrange(4)], 12 * k + 60, 7))
+    plan += [(0, [200, 0], 20000, 1), (0, [8, 0], 3000, 1), (1, [7, 1], 3000, 3), (2, [10, 3], 4000, 5), (3, [12, 1], 20000, 1), (3, [4, 0], 3000, 1),
+             (5, [128, 0], 20000, 1), (5, [2, 0], 2000, 1), (6, [100, 0], 3000, 5), (6, [1, 0], 50, 3),
+             (7, [12, 0], 30000, 1), (7, [4, 0], 100000, 1), (7, [6, 0], 100000, 1), (7, [10, 1], 8000, 1), (7, [8, 2], 3000, 1),
+             (8, [11, 0], 60000, 1), (8, [8, 0], 30000, 1), (8, [4, 0], 3000, 1),
+             (9, [12, 1], 20000, 1), (9, [5, 3], 500, 1), (12, [100, 0], 6000, 1), (12, [10, 0], 2000, 1),
+             (13, [64, 3], 300, 4), (14, [10, 3], 600, 5), (14, [5, 2], 300, 3)]
+    cases = []
+    for ci, (kind, p, total, wmod) in enumerate(plan):
+        if big: total *= 2
+        ops = [[1, 0, kind] + p]; pos = 0; live = {0}
+        for st in stages(rng, total):
+            ops.append([21, 0, pos * 7919 + 1, st, 7919, wmod, rng.randrange(2)]); pos += st
+            x = rng.random()
+            if x < 0.35 and 1 not in live:
+                ops += [[3, 1, 0], [14, 0], [14, 1]]; live.add(1)
+            elif x < 0.55 and 1 in live:
+                ops += [[5, 1, 0], [14, 0], [14, 1], [21, 1, 5, rng.choice([1, 40]), 3, wmod, 0], [14, 0]]
+            elif x < 0.7 and 1 in live:
+                ops += [[14, 1], [6, 0, 1, 0, 0], [14, 0]]; live.discard(1)          # sketch := move(older copy), copy destroyed
+            elif x < 0.8:
+                ops += [[14, 0], [4, 2, 0, 1, 2] if False else [3, 2, 0], [10, 2]]
+            elif x < 0.9 and 1 in live and kind in (0, 2, 3, 5, 6, 12, 14):
+                ops += [[7, 0, 1], [14, 1]]
+            else:
+                ops += [[15, 0], [11, 0]]
+        ops += [[14, 0], [16, 3, 0]] if kind in (0, 2, 3, 4, 5, 7, 8, 12, 13) else [[14, 0]]
+        ops.append([99])
+        cases.append(dict(id='vsgrow%d_%s' % (ci, KIND_NAMES[kind]), ops=ops, kind=kind, tags=[KIND_NAMES[kind], 'growth']))
+    # var_opt_union: gadget (data_/weights_/marks_) growth, get_result, copy/move/assign, reset
+    for ui, max_k in enumerate((8, 16, 17, 32, 100)):
+        ops = [[1, 0, 11, max_k, 0]]
+        feeds = [100] + [rng.choice([8, 16, 17, 32, 100]) for _ in range(4)]
+        pos = 0
+        for j, k in enumerate(feeds):
+            r = 1 + j % 2
+            cnt = 60 if j == 0 else rng.choice([5, 20, 3 * k, 10 * k + 7])     # first feed: 60 items in exact mode, the gadget grows past 16
+            ops += [[1, r, 4, k, rng.randrange(4)], [21, r, pos + 1, cnt, 13, 7, rng.randrange(2)], [14, r]]
+            pos += cnt * 13
+            ops += [[7, 0, r], [14, r]] if rng.random() < 0.6 else [[8, 0, r, 0, 0]]
+            if 7 == ops[-2][0] if len(ops[-1]) == 2 else False: pass
+            if ops[-1][0] != 8: ops.append([10, r])
+            ops += [[14, 0], [18, 3, 0], [14, 3], [10, 3]]
+            if j == 1: ops += [[3, 4, 0], [14, 0], [14, 4]]
+            if j == 2: ops += [[5, 0, 4], [14, 0], [14, 4], [6, 4, 0, 1, 4] if False else [13, 4, 4, 0], [14, 4]]
+        ops += [[4, 5, 0, 0, 0], [14, 5], [18, 3, 5], [14, 3], [9, 5], [14, 5], [99]]
+        cases.append(dict(id='vsunion%d_k%d' % (ui, max_k), ops=ops, kind=11, tags=['var_opt_union', 'growth']))
     return cases
 
 def oracle_vsem(case, irecs, mrecs):
@@ -344,7 +434,8 @@ def oracle_vsem(case, irecs, mrecs):
     if 'kind' not in case:
         for op in case['ops']:
             if op[0] == 1: kind = KIND_NAMES.get(op[2], 'k'); break
-    tok = {}; fresh = [0]; seen = {}
+    tok = {}; fresh = [0]; seen = {}; own = {}
+    is_bloom = case.get('kind') == 10
     def new():
         fresh[0] += 1; return fresh[0]
     thrown_op = None
@@ -352,6 +443,12 @@ def oracle_vsem(case, irecs, mrecs):
     def hsig(v):
         # after a scripted item-copy failure every hygiene event is attributed to the operation that threw
         if thrown_op: return '%s_not_exception_safe_%s' % (thrown_op, kind)
+        if kind == 'var_opt_union':
+            # item-lifetime events (double destroy, construct over live, use of destroyed, release with live items) in the union's
+            # get_result path are one known root cause (decrease_k_by_1 / filled_data_); allocator events keep their own signature
+            other = v & ~(1 | 2 | 4 | 256)
+            if other == 0: return 'var_opt_union_result_item_lifetime'
+            return flag_sig(other) + '_' + kind
         return flag_sig(v) + '_' + kind
     for i, op in enumerate(case['ops']):
         if i >= len(irecs): break
@@ -365,12 +462,15 @@ def oracle_vsem(case, irecs, mrecs):
                                            % (kind, thrown_op, R[0], R[3], R[2]), op_index=i))
                 else:
                     if R[0] != 0:
-                        fails.append(dict(sig='leak_items_' + kind, what='%s: %d items still alive after every object was destroyed' % (kind, R[0]), op_index=i))
+                        fails.append(dict(sig='var_opt_union_result_item_lifetime' if kind == 'var_opt_union' else 'leak_items_' + kind, what='%s: %d items still alive after every object was destroyed' % (kind, R[0]), op_index=i))
                     if R[1] != 0 or R[2] != 0 or R[3] != 0:
                         fails.append(dict(sig='leak_blocks_' + kind, what='%s: %d blocks / %d bytes still allocated after every object was destroyed' % (kind, R[3], R[2]), op_index=i))
                 if R[4] != 0:
                     fails.append(dict(sig=hsig(R[4]), what='%s: hygiene flags %x (%s) while destroying all objects' % (kind, R[4], flag_sig(R[4])), op_index=i))
             continue
+        if c == 14 and is_bloom and R and R[0] != -1 and len(R) >= 2 and op[1] in own and (R[1] & 1) != (1 if own[op[1]] else 0):
+            fails.append(dict(sig='bloom_ownership_flag', what='bloom: register %d reports is_memory_owned() = %d but holds %s memory (history of copies/moves/assignments)'
+                              % (op[1], R[1] & 1, 'its own' if own[op[1]] else 'caller'), op_index=i))
         if c == 14:
             if len(R) >= 5 and R[4] != 0:
                 fails.append(dict(sig=hsig(R[4]), what='%s: hygiene flags %x (%s) while serializing' % (kind, R[4], flag_sig(R[4])), op_index=i))
@@ -407,8 +507,11 @@ def oracle_vsem(case, irecs, mrecs):
             continue
         def give(dst, src, why):
             tok[dst] = tok.get(src, new()); tokwhy.setdefault(tok[dst], why)
-        if c == 1: tok[op[1]] = new()
-        elif c in (2, 9, 12, 15): tok[op[1]] = new()
+            if src in own: own[dst] = own[src]
+        if c == 1:
+            tok[op[1]] = new(); own[op[1]] = (op[4] == 0)
+        elif c in (2, 9, 12, 15, 21): tok[op[1]] = new()
+        elif c == 18: tok[op[1]] = new()
         elif c == 3: give(op[1], op[2], 'copy construction')
         elif c == 4:
             give(op[1], op[2], 'move construction'); tokwhy[tok[op[1]]] = 'move construction'
@@ -420,7 +523,9 @@ def oracle_vsem(case, irecs, mrecs):
         elif c == 6:
             if op[1] == op[2]: tok[op[1]] = new()
             else:
-                give(op[1], op[2], 'move assignment'); tokwhy[tok[op[1]]] = 'move assignment'
+                old_own = own.get(op[1])
+                give(op[1], op[2], 'move assignment')
+                if old_own is not None: own[op[2]] = old_own      # move assignment swaps; tokwhy[tok[op[1]]] = 'move assignment'
                 if op[3] == 0: tok.pop(op[2], None)
                 else: give(op[2], op[4], 'copy assignment to a moved-from object'); tokwhy[tok[op[2]]] = 'copy assignment to a moved-from object'
         elif c == 7: tok[op[1]] = new()
@@ -432,8 +537,13 @@ def oracle_vsem(case, irecs, mrecs):
         elif c == 13:
             give(op[2], op[3], 'assignment chain'); tokwhy[tok[op[2]]] = 'assignment chain'
             give(op[1], op[2], 'assignment chain')
-        elif c == 16: tok[op[1]] = new()
+        elif c == 16:
+            tok[op[1]] = new(); own[op[1]] = True
         # 11: nothing changes
+        if is_bloom:
+            # filters that do not own their memory alias the caller's buffer: no independence claim for them
+            for r in list(tok):
+                if not own.get(r, True): tok[r] = new()
     return fails
 tokwhy = {}
 
@@ -459,29 +569,34 @@ def crash_sig_vsem(case, text):
 FAMILIES = [dict(name='ledger', harness='drv_ledger.cpp', extract='Extract_ledger.v', model='model_ledger', gen=gen_ledger, oracle=oracle_ledger),
             dict(name='vsem', harness='drv_ledger.cpp', extract=None, model=None, gen=gen_vsem, oracle=oracle_vsem, crash_sig=crash_sig_vsem)]
 
+EB_PARTS = [(1, 'ebpps_sketch<Item, talloc<Item>>::merge(const ebpps_sketch&)', r"swap.{0,4} was not declared", 'ebpps_sketch_impl.hpp', 'ebpps_lvalue_merge_custom_alloc'),
+            (2, 'var_opt_union<Item, talloc<Item>>::operator=(const var_opt_union&)', r"no matching function for call to .{0,4}swap", 'var_opt_union_impl.hpp',
+             'var_opt_union_copy_assign_does_not_compile'),
+            (3, 'count_min_sketch<uint64_t, talloc<uint64_t>>::get_allocator()', r"undefined reference to .{0,200}get_allocator", 'count_min', 'count_min_get_allocator_undefined')]
+
 def extra(chk):
-    """ebpps_sketch::merge(const&) with user allocator/item: compile and run harness/drv_ledger_eb.cpp (a compile-time defect is
-       reported with its own signature instead of taking the main harness down)."""
-    import os, vlib
+    """members that do not compile / link with a user allocator: harness/drv_ledger_eb.cpp is built once per part (a compile-time
+       defect is reported with its own signature instead of taking the main harness down), then run under the sanitizers."""
+    import os, re, vlib
     bdir = os.path.join(chk.bdir, 'ebmerge'); os.makedirs(bdir, exist_ok=True)
     fam = dict(name='ebmerge', harness='drv_ledger_eb.cpp')
-    exe = os.path.join(bdir, 'drv_ledger_eb')
-    rc, out, _ = vlib.sh('g++ %s %s -o %s' % (vlib.harness_flags(True), os.path.join(vlib.VERIF, 'harness', 'drv_ledger_eb.cpp'), exe), timeout=600)
-    chk.cov['families']['ebmerge'] = dict(cases=1, built=(rc == 0))
-    chk.cov['evaluations'] += 1
-    if rc != 0:
-        import re
-        unq = re.search(r"swap.{0,4} was not declared", out) is not None and 'ebpps_sketch_impl.hpp' in out
-        chk.report(fam, dict(id='ebmerge', ops=[]), 'ebpps_sketch<Item, talloc<Item>>::merge(const ebpps_sketch&) does not compile',
-                   dict(error=out[-1500:]), True, sig='ebpps_lvalue_merge_custom_alloc' if unq else None)
-        return
-    env = dict(os.environ); env['ASAN_OPTIONS'] = vlib.ASAN_ENV
-    rc, out, _ = vlib.sh([exe], timeout=120, env=env)
-    if rc != 0 or not out.startswith('OK 0 0 0'):
-        chk.report(fam, dict(id='ebmerge', ops=[]), 'ebpps merge by reference with a tracking allocator: ' + out[-300:], dict(output=out[-1500:]), True,
-                   sig='ebpps_lvalue_merge_unbalanced')
-    else:
-        chk.cov['traces_validated_against_impl'] += 1
+    chk.cov['families']['ebmerge'] = dict(cases=len(EB_PARTS), built=[])
+    for part, what, pat, where, sig in EB_PARTS:
+        exe = os.path.join(bdir, 'drv_ledger_eb%d' % part)
+        rc, out, _ = vlib.sh('g++ %s -DEB_PART=%d %s -o %s' % (vlib.harness_flags(True), part, os.path.join(vlib.VERIF, 'harness', 'drv_ledger_eb.cpp'), exe), timeout=600)
+        chk.cov['evaluations'] += 1
+        case = dict(id='ebpart%d' % part, ops=[])
+        if rc != 0:
+            known = re.search(pat, out, re.S) is not None and where in out
+            chk.report(fam, case, '%s does not compile / link' % what, dict(error=out[-1500:]), True, sig=sig if known else None)
+            continue
+        chk.cov['families']['ebmerge']['built'].append(part)
+        env = dict(os.environ); env['ASAN_OPTIONS'] = vlib.ASAN_ENV
+        rc, out, _ = vlib.sh([exe], timeout=120, env=env)
+        if rc != 0 or not out.startswith('OK 0 0 0'):
+            chk.report(fam, case, '%s with a tracking allocator: %s' % (what, out[-300:]), dict(output=out[-1500:]), True, sig='ebpart%d_unbalanced' % part)
+        else:
+            chk.cov['traces_validated_against_impl'] += 1
 
 MANIFEST = dict(
     level_text=('Theorems (coq/Properties_C19.v, 17, axiom-free) about the effect-ledger machine coq/LedgerDefs.v that is extracted and run against the C++ on every '
